@@ -1536,19 +1536,31 @@ def _g_tsib(g, ins):
     pp = list(range(nd))
     g.rng.shuffle(q)
     g.rng.shuffle(pp)
-    return {"q": q, "p": pp, "fn": g.rng.choice(["k_add_one", "k_double"])}
+    out = {"q": q, "p": pp, "fn": g.rng.choice(["k_add_one", "k_double"])}
+    n = min(a.shape)
+    if n >= 2 and g.rng.random() < 0.6:
+        # cut a cube with one chunk size on every axis: the sibling may then be read through ANY permutation r (not only
+        # the composite of the first path), so the two paths need different blocks of the shared node
+        r = list(range(nd))
+        g.rng.shuffle(r)
+        out.update({"cube": n, "c": g.rng.randint(1, max(1, n // 2)), "r": r})
+    return out
 
 
 def _tsib_np(p, a):
     q, pp = p["q"], p["p"]
-    r = [q[i] for i in pp]
+    r = p.get("r") or [q[i] for i in pp]
+    if p.get("cube"):
+        a = a[(slice(0, p["cube"]),) * a.ndim]
     s = -a
     return K.KERNELS[p["fn"]](np.transpose(s, q)).transpose(pp) + np.transpose(s, r)
 
 
 def _tsib_dask(p, a):
     q, pp = p["q"], p["p"]
-    r = [q[i] for i in pp]
+    r = p.get("r") or [q[i] for i in pp]
+    if p.get("cube"):
+        a = a[(slice(0, p["cube"]),) * a.ndim].rechunk((p["c"],) * a.ndim)
     shared = da().map_blocks(K.k_neg, a, dtype=a.dtype)
     b1 = da().map_blocks(K.KERNELS[p["fn"]], da().transpose(shared, q), dtype=a.dtype).transpose(pp)
     return b1 + da().transpose(shared, r)
